@@ -172,6 +172,35 @@ def _annotate_closure(text, args, payload):
     return text[:pe + 1] + ' -> (' + m.group(2) + ') ' + spec + ' ' + body + text[e:]
 
 
+def _name_for_iterator(text, args, fnname):
+    """`//@foriter #n name`: the n-th `for PAT in EXPR {` loop head (in code order, among `for` loops only) becomes
+    `for PAT in name: EXPR {` - the Verus syntax that names the loop's ghost iterator.  Ghost-only; independent of
+    what EXPR is, so a change to EXPR does not lose the anchor."""
+    m = re.match(r'^#(\d+)\s+([A-Za-z_][A-Za-z0-9_]*)\s*$', args.strip())
+    if not m:
+        raise UnitError('bad foriter args: %r' % args)
+    nth, name = int(m.group(1)), m.group(2)
+    mask = code_mask(text)
+    heads = [mm for mm in re.finditer(r"(?m)^[ \t]*(?:'[a-z_]+\s*:\s*)?for\b", text) if mask[mm.end() - 1]]
+    if nth > len(heads):
+        raise UnitError('foriter: for-loop #%d lost in %s' % (nth, fnname))
+    i = heads[nth - 1].end()
+    # find ` in ` at paren depth 0 after the pattern
+    pd = 0
+    while i < len(text):
+        if mask[i]:
+            ch = text[i]
+            if ch in '([':
+                pd += 1
+            elif ch in ')]':
+                pd -= 1
+            elif pd == 0 and re.match(r'\bin\b', text[i:i + 3]) and text[i - 1] in ' \t\n' :
+                j = i + 2
+                return text[:j] + ' ' + name + ':' + text[j:]
+        i += 1
+    raise UnitError('foriter: no `in` found for for-loop #%d in %s' % (nth, fnname))
+
+
 def _loop_heads(lines):
     """indices of lines that start a loop (code `while`/`loop`/`for` as first token or after
     a label), in order."""
@@ -239,6 +268,9 @@ def weave(item, ops, twin, fnname, rewrite_log):
     for op, args, payload, uline in ops:
         if op == 'closure':
             text = _annotate_closure(text, args, payload)
+    for op, args, payload, uline in ops:
+        if op == 'foriter':
+            text = _name_for_iterator(text, args, fnname)
     lines = text.split('\n')
     origin = [{'kind': 'code', 'file': item['file'], 'line': item['line'] + k, 'fn': fnname} for k in range(len(lines))]
     is_code = lambda: [o['kind'] == 'code' for o in origin]
@@ -266,7 +298,7 @@ def weave(item, ops, twin, fnname, rewrite_log):
             origin.insert(ln + 1, dict(o))
             insert(ln + 1, ['proof { if vacuity_probe_guard(-(%d as int)) { assert(false); } } // VACUITY-PROBE entry' % (item['line'])], 'probe', 0)
     for op, args, payload, uline in ops:
-        if op in ('ret', 'sub', 'closure'):
+        if op in ('ret', 'sub', 'closure', 'foriter'):
             continue
         if op == 'spec':
             # between signature and body: find line holding the body '{'
